@@ -328,10 +328,12 @@ def obligations(tier):
         obs.append(hetero_moments_ob(cls))
     for cls in FEATURE + HETERO:
         obs.append(assembly_ob(cls))
+    from .c20 import summary_ob
+    obs += [summary_ob("normal_cdf"), summary_ob("normal_pdf")]      # the step / rectified-linear moments are stated in Phi / phi
     return obs
 
 
-FLOORS = {"group:moments": 6, "group:assembly": 6, "group:kernel": 4, "group:hetero": 4}
+FLOORS = {"group:moments": 6, "group:assembly": 6, "group:kernel": 4, "group:hetero": 4, "group:summary": 2}
 LEVEL = "other"
 EXPLANATION = ("Partial: the ASSEMBLY of the matched moments is decided (E[y], Cov[y], E[yx'] as polynomials in kernel / noise expectations computed by independent "
                "reference formulas; block layout and kernel layouts; link wiring; unit-height kernels; heteroscedastic conditional covariance) for all four links "
